@@ -12,9 +12,6 @@ TECHNIQUE = ("shared-state analysis (E4): module-level mutable bindings, global/
 
 
 def check(rep, ctx):
-    b = ctx.bundle
-    eng = b["engine"]
-    I = ctx.interp
     rep.explanation = (
         "The only process-wide state reachable from kio.serial is the functools.cache tables of the two factories and "
         "immutable module constants. Decided: no mutable module-level binding, no global/nonlocal, no store through a "
@@ -40,6 +37,11 @@ def check(rep, ctx):
         rep.check(R_M, False, construct=f"{s['module']}:{s['function']}", stmt=s["stmt"],
                   message=f"{s['kind']}: {s['name']} {s['what']}", file=s["file"], line=s["line"])
     rep.count(R_M, len(SERIAL_MODULES), instance="modules-scanned")
+    # the syntactic scan above needs no interpretation: its findings stand even when the interpreter meets a shape it
+    # does not follow below (run_property reports findings made before an analysis limit)
+    b = ctx.bundle
+    eng = b["engine"]
+    I = ctx.interp
     n_paths = 0
     for d, kind, skind, site, detail, n in eng["effects"]:
         if kind == "mutate":
